@@ -304,8 +304,16 @@ class Engine:
             packed = args[1]
             return self.call_fnv(ctx, f, list(packed.fields) if isinstance(packed, Tup) else [packed])
         target = self.impls.resolve(cp, self_ty, trait, generics)
+        if target is None and self_ty is not None and unresolved(self_ty):
+            target = self.impls.resolve_dynamic(cp, trait, args)
         if target is not None:
             fn, fenv = target
+            if generics:
+                # method-level type parameters: names in order of first appearance in the signature
+                names = method_params(fn, fenv)
+                if len(names) == len(generics):
+                    fenv = dict(fenv)
+                    fenv.update(zip(names, generics))
             if cp.method in SUMMARIZE and self.summaries_on and \
                     all(isinstance(a, Sc) for a in args) and any(is_sym(a.v) for a in args):
                 return self.apply_summary(ctx, fn, args, fenv)
@@ -367,6 +375,9 @@ class Engine:
         if text.startswith('"'):
             s = bytes(text[1:-1], "utf-8").decode("unicode_escape").encode("latin-1")
             return Ref(Cell(VecV([Sc("u8", b) for b in s], None, "str")))
+        if text.startswith('b"'):
+            s = bytes(text[2:-1], "utf-8").decode("unicode_escape").encode("latin-1")
+            return Ref(Cell(VecV([Sc("u8", b) for b in s], None, "vec")))
         if text.startswith("'"):
             return Sc("char", ord(bytes(text[1:-1], "utf-8").decode("unicode_escape")))
         if text.startswith("ZeroSized: "):
@@ -705,6 +716,28 @@ class Engine:
 
 
 SUMMARIZE = {"from_i64", "is_private"}
+
+_PARAM_RE = re.compile(r"(?<![\w:])([A-Z])(?![\w:<])")
+_MP_CACHE = {}
+
+
+def method_params(fn, env):
+    key = (fn.index, tuple(sorted(env)))
+    if key not in _MP_CACHE:
+        names = []
+        for t in list(fn.arg_types) + [fn.ret_type or ""]:
+            for m in _PARAM_RE.finditer(t):
+                n = m.group(1)
+                if n not in names and n not in env:
+                    names.append(n)
+        _MP_CACHE[key] = names
+    return _MP_CACHE[key]
+
+
+def unresolved(t):
+    if t.name.startswith("assoc:") or (len(t.name) == 1 and t.name.isupper()):
+        return True
+    return any(unresolved(a) for a in t.args)
 
 
 def value_shape(v):
